@@ -45,6 +45,21 @@ def gen_doc(rng):
         d, _e, _m = C19.gen_case(rng)
         body = d.decode("utf-8")
     body = re.sub(r"^<\?xml[^>]*\?>\s*", "", body)
+    if rng.random() < 0.22 and re.match(r"<(rss|feed)\b", body):
+        # a DOCTYPE with an internal subset in the layout replace_doctype() supports (one declaration per line, double-quoted values) that declares a few of the
+        # general entities of a small shared pool; some of them are used in the content
+        names = rng.sample(ENTITY_POOL, rng.randint(1, 3))
+        subset = "".join('<!ENTITY %s "%s">\n' % (nm, rng.choice(["(C)", "text %s" % nm, "&#169;", "&#x2014;", "AT and T", ""])) for nm in names)
+        dt = "<!DOCTYPE %s [\n%s]>\n" % (re.match(r"<(\w+)", body).group(1), subset)
+        span = content_span(body)
+        if span:
+            tp = text_positions(body, *span)
+            for nm in rng.sample(names, rng.randint(0, len(names))):
+                if tp:
+                    i = rng.choice(tp)
+                    body = body[:i] + "&%s;" % nm + body[i:]
+                    tp = text_positions(body, *content_span(body))
+        return rng.choice(DECLS) + dt + body
     dt = rng.choice(DOCTYPES)
     if dt and not re.match(r"<(rss|feed)\b", body):
         dt = ""
@@ -53,6 +68,9 @@ def gen_doc(rng):
     if dt.startswith("<!DOCTYPE rss") and not body.startswith("<rss"):
         dt = ""
     return rng.choice(DECLS) + dt + body
+
+
+ENTITY_POOL = ["cpy", "co", "mdash2", "who", "unit", "e1"]
 
 
 DAMAGES = ["drop-end-tag", "mismatch-end-tag", "bare-amp", "bare-lt", "undefined-entity", "undeclared-prefix", "duplicate-attribute", "text-after-root", "illegal-char", "doctype-in-content",
@@ -93,6 +111,16 @@ def text_positions(doc, lo, hi):
 
 
 def damage(rng, doc, kind):
+    if kind == "undefined-entity" and "<!DOCTYPE" in doc and "[\n<!ENTITY" in doc:
+        # internal subset only (no external ID): "Entity Declared" is a well-formedness constraint; reference a pool entity this document does NOT declare
+        # (another document of the same process may well have declared it)
+        span = content_span(doc)
+        tp = text_positions(doc, *span) if span else []
+        free = [nm for nm in ENTITY_POOL if "<!ENTITY %s " % nm not in doc]
+        if not tp or not free:
+            return None
+        i = rng.choice(tp)
+        return doc[:i] + "&%s;" % rng.choice(free) + doc[i:]
     if kind == "undefined-entity" and "<!DOCTYPE" in doc:
         # with an (unread) external subset "Entity Declared" is a validity constraint, not a well-formedness one: expat may accept the reference,
         # feedparser (which drops the DOCTYPE) rejects it -- both within the XML recommendation, so the combination is outside this check
@@ -155,9 +183,18 @@ def parse(data, headers):
         return feedparser.parse(data, response_headers=headers)
 
 
-def judge(doc, headers, kind):
+def judge(doc, headers, kind, history=None):
+    """history: documents parsed earlier in the same process (recorded in the witness, re-parsed first on replay)"""
     data = doc.encode("utf-8", "surrogatepass") if False else doc.encode("utf-8")
-    w = {"doc": doc, "headers": headers, "damage": kind}
+    w = {"doc": doc, "headers": headers, "damage": kind, "history": history}
+    if history and history is not LIVE_HISTORY:
+        for h in history:
+            try:
+                parse(h.encode("utf-8"), headers)
+            except Exception:
+                pass
+    if history is LIVE_HISTORY:
+        w["history"] = list(history)
     verdict = expat_verdict(data)
     try:
         r = parse(data, headers)
@@ -179,17 +216,26 @@ def judge(doc, headers, kind):
     return fs
 
 
+LIVE_HISTORY = []        # the documents with an internal subset this process has parsed so far (most recent last, at most three kept)
+
+
 def search(ctx, focus=None):
     rng = ctx.rng
     failures, n, distinct = [], 0, set()
     dist = {"well-formed": 0}
+    del LIVE_HISTORY[:]
     for _ in range(ctx.n(160, 3000)):
         doc = gen_doc(rng)
         hdr = rng.choice(HEADERS)
         n += 1
         dist["well-formed"] += 1
+        if "[\n<!ENTITY" in doc:
+            dist["internal-subset"] = dist.get("internal-subset", 0) + 1
         distinct.add((doc, str(hdr)))
-        failures += judge(doc, hdr, None)
+        failures += judge(doc, hdr, None, LIVE_HISTORY)
+        if "[\n<!ENTITY" in doc:
+            LIVE_HISTORY.append(doc)
+            del LIVE_HISTORY[:-3]
         for kind in (DAMAGES if ctx.thorough else rng.sample(DAMAGES, 5)):
             for _rep in range(2 if ctx.thorough else 1):
                 dm = damage(rng, doc, kind)
@@ -198,10 +244,11 @@ def search(ctx, focus=None):
                 n += 1
                 dist[kind] = dist.get(kind, 0) + 1
                 distinct.add((dm, str(hdr)))
-                failures += judge(dm, hdr, kind)
+                failures += judge(dm, hdr, kind, LIVE_HISTORY)
     return {"evaluations": n, "distinct_nontrivial": len(distinct), "failures": failures, "distribution": dist,
             "rule": "well-formed feeds (vocabulary-wide RSS 2.0 / RSS 1.0 / Atom 1.0, abstract feeds with markup-significant text in six formats, namespace cases) x XML declaration layouts "
-                    "(none, single-line, single-quoted, multi-line, CRLF, standalone) x DOCTYPE (none, external-ID forms) x headers (none, empty, XML media types with / without charset, any case); "
+                    "(none, single-line, single-quoted, multi-line, CRLF, standalone) x DOCTYPE (none, external-ID forms, internal subsets declaring general entities of a small shared pool -- "
+                    "so that what one document declares another one references without declaring it, in the same process; the witness records the preceding subset documents) x headers (none, empty, XML media types with / without charset, any case); "
                     "each also with single-point damages of the element content at random positions {dropped / mismatched end tag, bare &, bare <, undefined entity, undeclared prefix, duplicate "
                     "attribute, unquoted attribute, text / second root after the root, illegal character, DOCTYPE at a line start inside content, ]]> in text, unclosed comment, XML declaration "
                     "inside content}; oracle: pyexpat (namespace mode) on the same bytes: bozo set iff expat rejects, bozo <-> bozo_exception, and the exception is the SAX one",
@@ -222,7 +269,7 @@ def correspondence(ctx):
 
 
 def replay(w):
-    fs = judge(w["doc"], w["headers"], w.get("damage"))
+    fs = judge(w["doc"], w["headers"], w.get("damage"), w.get("history") or None)
     return (bool(fs), fs[0].what if fs else "bozo agrees with expat's verdict and is paired with bozo_exception")
 
 
